@@ -49,25 +49,41 @@ Section Lift.
     | _ => True
     end.
 
-  Lemma eval_pat_lift fuel r i f u s : G u ->
-    match eval_pat U step enter e fuel r i f u s with
-    | inl x => match x with LCont _ _ _ => False | _ => lres_R s x end
-    | inr (_, _, u1, s1) => R s s1 /\ G u1
+  Definition pres_R (s : st) (x : pres U) : Prop :=
+    match x with
+    | PStop _ u1 s1 => R s s1 /\ G u1
+    | PSkip _ u1 s1 => R s s1 /\ G u1
+    | PVal _ _ u1 s1 => R s s1 /\ G u1
+    | _ => True
     end.
+
+  Lemma pres_R_trans s s1 x : R s s1 -> pres_R s1 x -> pres_R s x.
+  Proof. intros H. destruct x; cbn; try tauto; intros [H2 HG]; (split; [eapply R_trans; eassumption|exact HG]). Qed.
+
+  Lemma run_pat_lift fuel b fcur u s k : G u ->
+    (forall v u1 s1, G u1 -> pres_R s1 (k v u1 s1)) ->
+    pres_R s (run_pat U step enter e fuel b fcur u s k).
   Proof.
-    intros HG. unfold eval_pat. destruct (rk r).
-    - split; [apply R_refl|exact HG].
-    - destruct (run U step e fuel (enter (BPat i false) u) s) as [| |o u1 s1] eqn:H1; cbn; try exact I.
-      apply run_lift in H1; [|apply Henter; exact HG]. destruct o; cbn; exact H1.
-    - destruct f.
-      + destruct (run U step e fuel (enter (BPat i true) u) s) as [| |o u1 s1] eqn:H1; cbn; try exact I.
-        apply run_lift in H1; [|apply Henter; exact HG]. destruct o; cbn; exact H1.
-      + destruct (run U step e fuel (enter (BPat i false) u) s) as [| |o u1 s1] eqn:H1; cbn; try exact I.
-        apply run_lift in H1; [|apply Henter; exact HG]. destruct o as [b| | | |]; cbn; try exact H1.
-        destruct b; [|exact H1]. destruct H1 as [H1 HG1].
-        destruct (run U step e fuel (enter (BPat i true) u1) s1) as [| |o2 u2 s2] eqn:H2; cbn; try exact I.
-        apply run_lift in H2; [|apply Henter; exact HG1]. destruct H2 as [H2 HG2].
-        destruct o2; cbn; (split; [eapply R_trans; eassumption|exact HG2]).
+    intros HG Hk. unfold run_pat.
+    destruct (run U step e fuel (enter b u) s) as [| |o u1 s1] eqn:H1; cbn; try exact I.
+    apply run_lift in H1; [|apply Henter; exact HG]. destruct H1 as [H1 HG1].
+    destruct o as [v| | |n|]; cbn; try (split; assumption).
+    - eapply pres_R_trans; [exact H1|apply Hk; exact HG1].
+    - split; [eapply R_trans; [exact H1|apply R_drop]|exact HG1].
+  Qed.
+
+  Lemma eval_pat_lift fuel r i f u s : G u -> pres_R s (eval_pat U step enter e fuel r i f u s).
+  Proof.
+    intros HG. unfold eval_pat.
+    assert (Hstop : forall u1 s1, G u1 ->
+              pres_R s1 (run_pat U step enter e fuel (BPat i true) true u1 s1 (fun b u2 s2 => PVal true (negb b) u2 s2))).
+    { intros u1 s1 HG1. apply run_pat_lift; [exact HG1|]. intros v u2 s2 HG2. cbn. split; [apply R_refl|exact HG2]. }
+    destruct (rk r).
+    - cbn. split; [apply R_refl|exact HG].
+    - apply run_pat_lift; [exact HG|]. intros v u1 s1 HG1. cbn. split; [apply R_refl|exact HG1].
+    - destruct f; [apply Hstop; exact HG|].
+      apply run_pat_lift; [exact HG|]. intros v u1 s1 HG1.
+      destruct v; [apply Hstop; exact HG1|]. cbn. split; [apply R_refl|exact HG1].
   Qed.
 
   Lemma lres_R_trans s s1 x : R s s1 -> lres_R s1 x -> lres_R s x.
@@ -80,8 +96,7 @@ Section Lift.
     - cbn. split; [apply R_refl|exact HG].
     - destruct fl as [|f fl']. { cbn. split; [apply R_refl|exact HG]. }
       pose proof (eval_pat_lift fuel r i f u s HG) as HP.
-      destruct (eval_pat U step enter e fuel r i f u s) as [x|[[[m f'] u1] s1]].
-      + destruct x; cbn in *; tauto.
+      destruct (eval_pat U step enter e fuel r i f u s) as [| |o u1 s1|f' u1 s1|m f' u1 s1]; cbn in *; try exact I; try exact HP.
       + destruct HP as [HP HG1].
         destruct (negb m). { eapply lres_R_trans; [exact HP|apply IH; exact HG1]. }
         destruct (negb (has_body r)).
